@@ -6,6 +6,7 @@ cd "$(dirname "$0")"
 export CARGO_NET_OFFLINE=true
 python3 tools/translate.py > /dev/null   # regenerate lean/NdInterp/Gen/SourceFacts.lean from /repo/src
 python3 tools/translate_formulas.py > /dev/null   # regenerate lean/NdInterp/Gen/Formulas.lean (arithmetic kernels) from /repo/src
+python3 tools/translate_control.py > /dev/null    # regenerate lean/NdInterp/Gen/Control.lean (control flow of monotonic_prop / get_lower_index) from /repo/src
 MODS=$(ls lean/NdInterp/Props/*.lean lean/NdInterp/Props/FormulaTie/*.lean | sed 's#lean/##; s#\.lean$##; s#/#.#g')
 (cd lean && lake build NdInterp driver $MODS)
 [ -f harness/Cargo.lock ] || cp /repo/Cargo.lock harness/Cargo.lock
